@@ -5,6 +5,10 @@ use vaporetto::{CharacterBoundary, Sentence};
 
 mod c02;
 mod c05;
+mod c07;
+mod c15;
+mod c19;
+mod c16;
 
 fn main() {
     std::panic::set_hook(Box::new(|_| {}));
@@ -16,6 +20,14 @@ fn main() {
     let found = match (args[1].as_str(), args[2].as_str()) {
         ("c02", "search") => c02::search(),
         ("c02", "replay") => c02::replay(&args[3]),
+        ("c16", "search") => c16::search(),
+        ("c16", "replay") => c16::replay(&args[3]),
+        ("c19", "search") => c19::search(),
+        ("c19", "replay") => c19::replay(&args[3]),
+        ("c15", "search") => c15::search(),
+        ("c15", "replay") => c15::replay(&args[3]),
+        ("c07", "search") => c07::search(),
+        ("c07", "replay") => c07::replay(&args[3]),
         ("c05", "search") => c05::search(),
         ("c05", "replay") => c05::replay(&args[3]),
         _ => {
